@@ -298,6 +298,13 @@ def m_dec_option(M, a, c, fr):
     return res_ok(opt_some(payload(r, 0)[0]))
 
 
+def m_remaining_len(M, a, c, fr):
+    """Input::remaining_len of a byte-slice input: Ok(Some(bytes left))"""
+    i = inbuf(M, a[0]); pass_abs(M, i)
+    if any(isinstance(b, AbsElems) for b in i.bytes[i.pos:]): raise Inconclusive('remaining_len of an input with abstract element blocks')
+    return res_ok(opt_some(BV64(i.rem())))
+
+
 def m_err(M, a, c, fr): return ERR
 def m_chain(M, a, c, fr): return a[0]
 
@@ -313,7 +320,7 @@ CODEC_MODELS = [
     (r'<&(mut )?.+ as Encode>::encode_to(::<.*>)?', m_enc_ref),
     (r'<PhantomData<.*> as Encode>::encode_to(::<.*>)?', lambda M, a, c, fr: []),
     (r'<.+ as Encode>::size_hint', lambda M, a, c, fr: BV64(0)),
-    (r'<__Codec\w+ as (parity_scale_codec::)?Input>::read_byte', m_read_byte), (r'<u8 as Decode>::decode(::<.*>)?', m_read_byte),
+    (r'<(__Codec\w+|I) as (parity_scale_codec::)?Input>::read_byte', m_read_byte), (r'<(__Codec\w+|I) as (parity_scale_codec::)?Input>::remaining_len', m_remaining_len), (r'<u8 as Decode>::decode(::<.*>)?', m_read_byte),
     (r'<u32 as Decode>::decode(::<.*>)?', m_dec_u32), (r'<Compact<u32> as Decode>::decode(::<.*>)?', m_dec_compact),
     (r'<Compact<u32> as Into<u32>>::into', lambda M, a, c, fr: a[0][0]),
     (r'<Vec<.+> as Decode>::decode(::<.*>)?', m_dec_vec), (r'<String as Decode>::decode(::<.*>)?', m_dec_string),
